@@ -89,8 +89,56 @@ fn short_read_values() -> Vec<u32> {
     v
 }
 
+/// The same rule inside every packet that carries a car name: the packet decodes iff the four bytes do
+/// on their own, and then re-encodes to the identical frame.
+fn packet_site() -> Site {
+    use crate::spec;
+    let kinds = spec::load();
+    let mut targets: Vec<(String, bool, Vec<u8>, usize)> = vec![];
+    for k in &kinds {
+        let vals = crate::gen::baseline(k, 1);
+        let lay = spec::layout(k, &vals);
+        for c in [true, false] {
+            let Some(f) = spec::ref_encode(k, &vals, c) else { continue };
+            for (fi, start, len) in &lay {
+                if matches!(k.fields[*fi].ty, spec::Ty::Vehicle) && *len == 4 {
+                    targets.push((format!("{}.{}", k.name, k.fields[*fi].name), c, f.clone(), *start));
+                }
+            }
+        }
+    }
+    let vals = std::sync::Arc::new(short_read_values());
+    let targets = std::sync::Arc::new(targets);
+    let n = (targets.len() * vals.len()) as u64;
+    Site::new("in-packets", n,
+        "every packet field that carries a car name (NPL, RES, SLC; both modes) x every built-in name, near-names and mod ids: the packet decodes iff the four bytes decode on their own, and re-encodes to the same frame",
+        move |i, acc| {
+            acc.eval();
+            let (name, compressed, frame, off) = &targets[(i as usize) / vals.len()];
+            let value = vals[(i as usize) % vals.len()];
+            let mut f = frame.clone();
+            f[*off..*off + 4].copy_from_slice(&value.to_le_bytes());
+            let alone = Vehicle::read_le(&mut Cursor::new(&value.to_le_bytes()[..]));
+            let codec = insim::net::Codec::new(if *compressed { insim::net::Mode::Compressed } else { insim::net::Mode::Uncompressed });
+            let mut buf = bytes::BytesMut::from(&f[..]);
+            let replay = json!({"site": "in-packets", "index": i, "field": name, "bytes": crate::report::hex(&value.to_le_bytes())});
+            match (guard(|| codec.decode(&mut buf)), alone.is_ok()) {
+                (Err(p), _) => acc.violate(i, "C13|in-packet|panic".into(), format!("{name} = {}: {p}", crate::report::hex(&value.to_le_bytes())), replay),
+                (Ok(Ok(Some(p))), true) => match guard(|| codec.encode(&p)) {
+                    Ok(Ok(b)) if b[..] == f[..] => { acc.class("in-packet-agrees"); acc.nontrivial(); },
+                    other => acc.violate(i, format!("C13|in-packet|re-encode-differs|{name}"), format!("{name} = {}: the decoded packet re-encodes as {:?}", crate::report::hex(&value.to_le_bytes()), other.map(|r| r.map(|b| crate::report::hex(&b)).map_err(|e| e.to_string()))), replay),
+                },
+                (Ok(Err(_)), false) => { acc.class("in-packet-rejected-like-the-value"); acc.nontrivial(); },
+                (Ok(Ok(Some(p))), false) => acc.violate(i, format!("C13|in-packet|unrecognised-name-accepted|{name}"), format!("{name} = {}: the four bytes are rejected on their own but the packet decodes ({})", crate::report::hex(&value.to_le_bytes()), format!("{p:?}").chars().take(100).collect::<String>()), replay),
+                (Ok(Err(e)), true) => acc.violate(i, format!("C13|in-packet|valid-name-rejected|{name}"), format!("{name} = {}: {e}", crate::report::hex(&value.to_le_bytes())), replay),
+                (Ok(Ok(None)), _) => acc.violate(i, "C13|in-packet|incomplete".into(), format!("{name}: decoder wants more data on a complete frame"), replay),
+            }
+        })
+}
+
 pub fn sites(tier: Tier) -> Vec<Site> {
     let mut s = vec![];
+    s.push(packet_site());
     {
         let vals = std::sync::Arc::new(short_read_values());
         let n = vals.len() as u64 * 4 * 8 * 2;
